@@ -232,6 +232,8 @@ def check_case(case):
         world = pddl.World(dom, pr["objects"])
         for a in expected["actions"]:
             for part, detail in c01.compare_action(world, a, comb.actions[a["name"]], c01.derived_probes({"dom": dom}, dom, pr["objects"], 8)):
+                if part == "UNDECIDED":
+                    continue
                 res.bad(f"C17/combined-domain/action-{part}", {**info, "action": a["name"], "detail": detail})
         if res.disc:
             return res
